@@ -18,7 +18,7 @@ echo "== test suite with change"
 python3 /verif/tools/baseline_cmp.py /tmp/sv/$TAG.xml | head -6
 fi
 echo "== ./check $PROP against the changed tree (isolated copy of /verif)"
-rsync -a --exclude .git --exclude replays --exclude evidence /verif/ $V/
+rsync -a --exclude .git --exclude replays --exclude evidence ${VERIF_SNAP:-/verif}/ $V/
 (cd $V && SPSDK_REPO=$W SPSDK_CACHE_FOLDER=/tmp/sv/$TAG-cache timeout 1800 ./check $PROP > /tmp/sv/$TAG.check 2>&1); echo "check exit=$?"; grep -E "VIOLATION|KNOWN|^\[" /tmp/sv/$TAG.check | cut -c1-300
 for f in $V/replays/*.json; do [ -f "$f" ] && python3 -c "
 import json,sys
